@@ -1301,9 +1301,14 @@ class ClassicChannel(utils.EventEmitter):
             return await self.disconnection_result
 
     def abort(self) -> None:
-        if self.state == self.State.OPEN:
+        if self.state in (self.State.OPEN, self.State.WAIT_DISCONNECT):
             self._change_state(self.State.CLOSED)
             self.emit(self.EVENT_CLOSE)
+            self.manager.on_channel_closed(self)
+        if self.disconnection_result is not None:
+            if not self.disconnection_result.done():
+                self.disconnection_result.set_result(None)
+            self.disconnection_result = None
 
     def send_configure_request(self) -> None:
         options: list[tuple[int, bytes]] = [
